@@ -180,12 +180,12 @@ Definition refund_to (h : Z) (a : obs) (st : step) (b : obs) (x : acct) (d : den
       end
     else 0) (o_pools a)).
 
-Definition msg_delta (b : obs) (st : step) (x : acct) (d : denom) : Z :=
+Definition msg_delta (cf : Z) (b : obs) (st : step) (x : acct) (d : denom) : Z :=
   if negb (o_code b =? 0) then 0 else
   match st with
   | Msg (CreatePool w _ _ _ rules) =>
       if w =? x then - zsum (map (fun '(d', t, _) => if d' =? d then t else 0) rules)
-                     - (if d =? STAKE then creation_fee else 0) else 0
+                     - (if d =? STAKE then cf else 0) else 0
   | Msg (Stake w _ d' amt) => if w =? x then (if d' =? d then - amt else 0) + amount_of (o_rw b) d else 0
   | Msg (Unstake w _ d' amt) => if w =? x then (if d' =? d then amt else 0) + amount_of (o_rw b) d else 0
   | Msg (Harvest w _) => if w =? x then amount_of (o_rw b) d else 0
@@ -219,12 +219,12 @@ Definition new_pools_ok (a : obs) (st : step) (b : obs) : bool :=
       end
     end) (o_pools b).
 
-Definition c06_step (h : Z) (a : obs) (st : step) (b : obs) : Z :=
+Definition c06_step (h cf : Z) (a : obs) (st : step) (b : obs) : Z :=
   let pc := fold_left (fun code '(pid, pa) => if negb (code =? 0) then code else c06_pool h a st b pid pa) (o_pools a) 0 in
   if negb (pc =? 0) then pc
   else if negb (new_pools_ok a st b) then 11
   else if negb (forallb (fun x => forallb (fun d =>
-            obal b x d - obal a x d =? msg_delta b st x d + refund_to h a st b x d) denoms) actors) then 15
+            obal b x d - obal a x d =? msg_delta cf b st x d + refund_to h a st b x d) denoms) actors) then 15
   else if negb (forallb (fun d => obal b COLL d - obal a COLL d =? released_total a b d - amount_of (o_rw b) d) denoms) then 16
   else if negb (schedule_covered b) then 17
   else 0.
@@ -325,7 +325,7 @@ Fixpoint check_from (s : state) (a : obs) (c : list (step * obs)) (i : Z) (x : a
       let h := height s in
       let corr' := if (a_corr x <? 0) && negb (corr_step s' oc rw b) then i else a_corr x in
       let k5 := c05_step h a st b in
-      let k6 := c06_step h a st b in
+      let k6 := c06_step h (cfee s) a st b in
       (* the collector shortfall (code 3) has the lowest priority so that it never hides another clause *)
       let '(p5, c5) := if (a_p5 x <? 0) && negb (k5 =? 0) && negb (k5 =? 3) then (i, k5) else (a_p5 x, a_c5 x) in
       let '(kp5, kc5) := if (a_k5 x <? 0) && (k5 =? 3) then (i, k5) else (a_k5 x, a_kc5 x) in
